@@ -157,6 +157,9 @@ def main():
             for r in range(1 if quick else 6):
                 pjobs.append("CRUN %s %s %s %d %s %g %d %g %d" % (pl_, rng.choice(["R2", "SE2", "R3"]) if r else "R2", rng.choice(["boxes3", "gap", "circles5", "empty", "thin"]), rng.randint(0, 1), objn,
                                                                 rng.choice([0, 1.3, 2.0]), rng.randint(1, 10 ** 6), 0.25 if quick else 0.6, 3))
+        # resumed at the incumbent: after every solve the threshold is set to the best stored cost and the solutions are cleared
+        for objn in ("length", "clearance"):
+            pjobs.append("CRUN %s R2 %s %d %s -1 %d %g 3" % (pl_, rng.choice(["empty", "boxes3", "gap"]), rng.randint(0, 1), objn, rng.randint(1, 10 ** 6), 0.15 if quick else 0.4))
     def run_job(j):
         try:
             r = subprocess.run([cdrv] + j.split(), capture_output=True, text=True, timeout=120); return j, r.returncode, r.stdout
@@ -250,7 +253,10 @@ def main():
             mm = [[fl(x) for x in part.split()] for part in raw.get("MM", "MM 0 :").split(":", 1)[1].split(";") if part.split()]
         todo.append((j, k, si_, spn, objn, [vals[a * dim:(a + 1) * dim] for a in range(n)], sc, mm, tb))
     ncost = ncost_bad = 0; tcost = 0.0
-    for a in range(0, len(todo), 40):
+    cap = 500 if quick else 6000
+    if len(todo) > cap:
+        rng.shuffle(todo); todo = todo[:cap]
+    def eval_shard(a):
         part = todo[a:a + 40]
         src = "From Coq Require Import List Floats. From OmplV Require Import SpacesModel SpacesFloat CostModel. Import ListNotations.\nLocal Open Scope float_scope.\nEval vm_compute in [\n"
         items = []
@@ -262,7 +268,10 @@ def main():
         src += ";\n".join(items) + "].\n"
         path = os.path.join(c.outdir, "cases_cost_%d.v" % a)
         open(path, "w").write(src)
-        rc5, o5, e5, s5 = vf.sh("timeout 1500 coqc -Q %s OmplV %s" % (vf.COQ, path), timeout=1600); tcost += s5
+        return (part, path) + vf.sh("timeout 1500 coqc -Q %s OmplV %s" % (vf.COQ, path), timeout=1600)
+    with cf.ThreadPoolExecutor(6) as ex: shards = list(ex.map(eval_shard, range(0, len(todo), 40)))
+    for part, path, rc5, o5, e5, s5 in shards:
+        tcost += s5
         if rc5 != 0: c.broken.append("model evaluation (coqc %s) failed: %s" % (os.path.basename(path), (e5 or o5)[-300:])); break
         for (j, k, si_, spn, objn, pts, sc, mm, tb), res in zip(part, parse_nested(o5)):
             ncost += 1
